@@ -349,7 +349,11 @@ pub fn cert(a: &Args) -> Report {
   let oprf = OprfServer::new(vec![0, 1, 2]).expect("oprf");
   let p = p_big();
   for g in 0..groups {
-    let t: u32 = match g % 5 { 0 => 2, 1 => 3, 2 => maxt, _ => rng.gen_range(2..=maxt) };
+    // every threshold 2, 3, 4, ... is certified in turn (a dealing bug may depend on t mod k)
+    let t: u32 = if a.flag("sweep") { 2 + (g as u32) } else { match g % 5 { 0 => 2, 1 => 3, 2 => maxt, _ => rng.gen_range(2..=maxt) } };
+    if t > maxt {
+      break;
+    }
     let n = t as usize + 2;
     let m: Vec<u8> = (0..rng.gen_range(0..40)).map(|_| rng.gen()).collect();
     let mut m = m;
